@@ -139,6 +139,12 @@ static inline std::vector<int64_t> rel_values(hz::Rng &rng, int nrandom) {
   const int64_t B[] = {0x7ffe, 0x7fff, 0x8000, 0x8001, 0xffff, 0x10000, 0x7ffffffe, 0x7fffffff};
   for (auto b : B) { v.push_back(b); v.push_back(-b); }
   v.push_back(-0x80000000LL); v.push_back(-0x7fffffffLL); v.push_back(0xff); v.push_back(-0xff); v.push_back(0x100); v.push_back(-0x100);
+  // every power of two with its neighbours, and every 32-bit pattern whose bytes are 00, 01, 7f, 80 or ff (a field that is emitted
+  // byte-wise, or whose length is computed from its significant bytes, goes wrong at such values)
+  for (int k = 8; k <= 31; k++) for (int64_t d : {-2LL, -1LL, 0LL, 1LL}) { int64_t x = ((int64_t)1 << k) + d; if (x <= 0x7fffffffLL) v.push_back(x); if (x <= 0x80000000LL) v.push_back(-x); }
+  { static const int64_t BY[] = {0x00, 0x01, 0x7f, 0x80, 0xff};
+    for (int a = 0; a < 5; a++) for (int b = 0; b < 5; b++) for (int c = 0; c < 5; c++) for (int e = 0; e < 5; e++) { int64_t x = (int64_t)(int32_t)(uint32_t)((BY[a] << 24) | (BY[b] << 16) | (BY[c] << 8) | BY[e]); v.push_back(x); if (x > 0 && x != 0x80000000LL) v.push_back(-x); } }
+  std::sort(v.begin(), v.end()); v.erase(std::unique(v.begin(), v.end()), v.end());
   for (int i = 0; i < nrandom; i++) { int bits = 1 + (int)rng.below(31); int64_t x = (int64_t)(rng.next() >> (64 - bits)); v.push_back(rng.coin() ? x : -x); }
   return v;
 }
